@@ -189,6 +189,26 @@ def run(ctx):
         # the source directions with north labelled 360 instead of 0, refined by the midpoints: labels in (0, 360] are valid requests
         d360 = np.array(sorted(set((float(x) % 360.0) or 360.0 for x in da.dir.values) | set(((float(a) + float(b)) / 2.0) for a, b in
                                                                                              zip(sorted(da.dir.values % 360.0), sorted(da.dir.values % 360.0)[1:]))))
+        # the same spectrum with an integer-typed direction coordinate (np.arange(0, 360, 90)) and a finer target handed over as a
+        # list / tuple of fractional directions: the returned labels are the requested numbers, not numbers cast to the source's type
+        if all(float(x).is_integer() for x in da.dir.values):
+            dai = da.assign_coords(dir=da.dir.values.astype("int64"))
+            sd_ = sorted(float(x) for x in da.dir.values)
+            fine = sorted(set(sd_) | set(a + (b - a) * t for a, b in zip(sd_, sd_[1:]) for t in (0.25, 0.5)))
+            for what_i, tgt in (("list", list(fine)), ("tuple", tuple(fine))):
+                ctx.case(("int-dir-source", what_i, tuple(v["F"]), tuple(v["D"]), tuple(x for r in v["E"] for x in r)), True)
+                try:
+                    o1, o2 = dai.spec.interp(dir=tgt), da.spec.interp(dir=np.array(fine))
+                    ok = np.array_equal(np.asarray(o1.dir.values, float), np.array(fine)) and np.allclose(o1.values, o2.values, rtol=1e-12, atol=1e-12, equal_nan=True)
+                    msg = "labels %s" % (o1.dir.values,)
+                except Exception as ex:  # noqa
+                    ok, msg = False, "raised %s: %s" % (type(ex).__name__, str(ex)[:150])
+                if ok:
+                    ctx.replayed()
+                else:
+                    ctx.violation({"fn": "interp", "relation": "requested-coordinates", "target": "fractional %s on integer-typed source directions" % what_i},
+                                  "interp(dir=%s of fractional directions) on a spectrum with integer-typed dir: %s (requested %s)" % (what_i, msg, fine),
+                                  {"F": v["F"], "D": v["D"]})
         for what, kw, want in (("north labelled 360 (ndarray)", dict(dir=d360), ("dir", d360)),
                                ("north labelled 360 (list)", dict(dir=[float(x) for x in d360]), ("dir", d360)),
                                ("freq as float32", dict(freq=f32), ("freq", f32.astype("float64"))),
